@@ -370,6 +370,7 @@ struct Pre {
     last_attempt: u64,
     gated: bool,
     score_ref: i64,
+    lka: Option<u64>,
 }
 
 fn pre_of(c: &SrtlaConnection, now: u64) -> Pre {
@@ -389,6 +390,7 @@ fn pre_of(c: &SrtlaConnection, now: u64) -> Pre {
         waiting: c.rtt.waiting_for_keepalive_response,
         lrm: c.rtt.last_rtt_measurement_ms,
         last_attempt: c.reconnection.last_reconnect_attempt_ms,
+        lka: c.verif_last_keepalive_sent(),
         gated: c.is_stall_gated(),
         score_ref: if c.connected {
             c.window as i64 / (c.in_flight_packets as i64 + c.batch_sender.queued_count() as i64 + 1).max(1)
@@ -1065,7 +1067,7 @@ impl SysComp {
                         if !lka.is_some_and(|t| now.saturating_sub(t) < 1000) {
                             mon.fail("C14", "keepalive-missing", format!("link {} connected and live at tick {now} but last keepalive is {lka:?}", c.conn_id));
                         }
-                        if lka == Some(now) && kas.is_empty() {
+                        if lka == Some(now) && pre[i].lka != Some(now) && kas.is_empty() {
                             mon.fail("C14", "keepalive-not-on-wire", format!("link {} stamped a keepalive at {now} but none reached the wire", c.conn_id));
                         }
                     } else if !kas.is_empty() && pre[i].timed_out {
